@@ -1,6 +1,9 @@
+pub mod admin_props;
 pub mod c04;
+pub mod c07;
 pub mod c15;
 pub mod c18;
+pub mod full_props;
 pub mod mrp_oracles;
 pub mod mrp_props;
 
@@ -33,5 +36,8 @@ pub fn registry() -> Vec<PropertyDef> {
     v.extend(c04::defs());
     v.extend(c15::defs());
     v.extend(c18::defs());
+    v.extend(full_props::defs());
+    v.extend(admin_props::defs());
+    v.extend(c07::defs());
     v
 }
